@@ -3,6 +3,7 @@ E1 over the rejected part of the C01 space, with k<=3 simultaneous independent d
 from __future__ import annotations
 
 import hashlib
+import itertools
 import json
 import os
 import subprocess
@@ -32,7 +33,8 @@ RULE = (
     "are compared between two interpreters with different PYTHONHASHSEED; history pass on the same compiled method: every "
     "datum again carried by OrderedDict / list subclasses (same errors), then every rejected datum again (same errors as the "
     "first time). Discriminated unions (11 unions of C13's world) x 27 field-state bodies x 0..2 unexpected properties x "
-    "every mapped key: the error list equals, in order, the one of the named alternative alone. distinct_nontrivial counts distinct "
+    "every mapped key: the error list equals, in order, the one of the named alternative alone. Unions of alternatives "
+    "of the same JSON class (two objects sharing their keys, two lists, two mappings; both orders). distinct_nontrivial counts distinct "
     "(ctor-pair shape, options, deviations, number of error entries, set of message kinds) tuples."
 )
 
@@ -399,8 +401,34 @@ def run_discriminated(st):
     sys.modules.pop(mod.__name__, None)
 
 
+def same_class_unions():
+    """unions whose alternatives have the same JSON class (two objects sharing their keys, two lists, two mappings), in both
+    orders: they are tried in turn (no dispatch by class) and the errors of every alternative are merged location by location"""
+    from ..tast import F, INT, STR
+
+    def obj(n, vt):
+        return Obj("dataclass", n, (F("values", vt), F("name", STR)))
+
+    batch, single, deep = obj("UBatch", Coll("list", INT)), obj("USingle", STR), obj("UDeep", MapT("dict", STR, Coll("list", INT)))
+    pairs = {
+        "batch_single": (batch, single),
+        "batch_deep": (batch, deep),
+        "deep_single": (deep, single),
+        "lists": (Coll("list", INT), Coll("list", STR)),
+        "lists_nested": (Coll("list", Coll("list", INT)), Coll("list", STR)),
+        "maps": (MapT("dict", STR, INT), MapT("dict", STR, Coll("list", INT))),
+    }
+    for name, (a, b) in pairs.items():
+        yield f"sameclass_union[{name}]", Uni((a, b))
+        yield f"sameclass_union_rev[{name}]", Uni((b, a))
+
+
 def work(tier, widx, nworkers, st, extra):
     mode = (extra or {}).get("mode", "main")
+    if mode == "main" and widx == (1 % nworkers) and os.environ.get("VERIF_ONLY") in (None, "", "sameclass"):
+        for i, (label, spec) in enumerate(same_class_unions()):
+            apischema.cache.reset()  # Union[A, B] == Union[B, A] for typing: cache conflation (known finding of C09)
+            run_type(i + 1, label, spec, tier, st)
     if mode == "main" and widx == 0 and os.environ.get("VERIF_ONLY") in (None, "", "disc"):
         try:
             run_discriminated(st)
@@ -492,7 +520,7 @@ def replay(path: str) -> int:
             print("VIOLATION property=C02 replay=" + path)
             print(" ", x["what"])
         return 1 if hits else 0
-    for lab, spec in gen_types("thorough"):
+    for lab, spec in itertools.chain(same_class_unions(), gen_types("thorough")):
         if lab == label:
             break
     else:
